@@ -31,6 +31,7 @@ property and not claimed here.
 import EtkVerif.Asm.Refine
 import EtkVerif.Asm.Corollaries
 import EtkVerif.Asm.ErrorKinds
+import EtkVerif.Asm.ErrorKinds2
 namespace EtkVerif.C13
 open Asm
 
@@ -137,5 +138,31 @@ theorem C13_error_duplicate_macro_conv (rnd : Nat → Nat) (fuel k : Nat) (ops :
     (h : assemble rnd fuel { fresh := k } ops = .error (.duplicateMacro n)) :
     ∃ sub : RawOps, SubScope sub ops ∧ declareMacros sub.toList [] = .error (.duplicateMacro n) :=
   duplicateMacro_provenance rnd fuel k ops n h
+
+/-- `UndeclaredExpressionMacro n`: the scope that reports it declares no EXPRESSION macro `n` (an instruction macro of
+that name does not count) -/
+theorem C13_error_undeclared_expression_macro (rnd : Nat → Nat) (fuel k : Nat) (ops : RawOps) (n : String)
+    (h : assemble rnd fuel { fresh := k } ops = .error (.undeclaredExpressionMacro n)) :
+    ∃ (sub : RawOps) (ms : List (String × MacroDef)),
+      SubScope sub ops ∧ declareMacros sub.toList [] = .ok ms ∧
+      ∀ ps body, lookupMacro ms n ≠ some (.expr ps body) :=
+  undeclaredExpressionMacro_provenance rnd fuel k ops n h
+
+/-- `MacroArgumentCount n`: `n` is an INSTRUCTION macro declared in the scope that reports it (expression macros never
+yield this error: too few arguments surface as `UndeclaredVariableMacro`, surplus ones are ignored) -/
+theorem C13_error_argument_count (rnd : Nat → Nat) (fuel k : Nat) (ops : RawOps) (n : String)
+    (h : assemble rnd fuel { fresh := k } ops = .error (.macroArgumentCount n)) :
+    ∃ (sub : RawOps) (ms : List (String × MacroDef)) (ps : List String) (body : List AOp),
+      SubScope sub ops ∧ declareMacros sub.toList [] = .ok ms ∧ lookupMacro ms n = some (.instr ps body) :=
+  macroArgumentCount_provenance_instr rnd fuel k ops n h
+
+/-- `MacroRecursionLimit n`: `n` is a macro declared in the scope that reports it — or the marker of the evaluator
+model's own fuel (operands nested deeper than `evalFuel` = 100000 levels; DESIGN §11) -/
+theorem C13_error_recursion_limit (rnd : Nat → Nat) (fuel k : Nat) (ops : RawOps) (n : String)
+    (h : assemble rnd fuel { fresh := k } ops = .error (.macroRecursionLimit n)) :
+    n = "fuel" ∨
+    ∃ (sub : RawOps) (ms : List (String × MacroDef)) (d : MacroDef),
+      SubScope sub ops ∧ declareMacros sub.toList [] = .ok ms ∧ lookupMacro ms n = some d :=
+  macroRecursionLimit_provenance rnd fuel k ops n h
 
 end EtkVerif.C13
